@@ -1,7 +1,8 @@
-CONSTANTS MaxLines = 4
+CONSTANTS MaxLines = 3
           Recognised <- Both
           CloseByAny = FALSE
           Directives = "prose"
+          CloseAnyLength = FALSE
           Tracked = FALSE
 INIT CLInit
 NEXT CLNext
